@@ -30,7 +30,7 @@ func (c *ClientConfig) ConnectAndForward() error {
 	c.Session.transportOut.WritePacket(c.handshakeRequest())
 
 	for {
-		pt, sz, pkt, err := readMessage(c.Session.transportIn)
+		pt, sz, pkt, err := readMessage(c.Session.transportIn, &c.Session.pending)
 		if err != nil {
 			log.Printf("Cannot read message from stream %s", err)
 			return err
